@@ -65,6 +65,17 @@ ASSUME SplitLaw32 == \A s \in Strings(3) : \A k \in 0..Len(s) : \A c \in Inits32
 ASSUME SplitLaw64 == \A s \in Strings(3) : \A k \in 0..Len(s) : \A c \in Inits64 :
           Crc64Def(s, c) = Crc64Def(SubSeq(s, k + 1, Len(s)), Crc64Def(SubSeq(s, 1, k), c))
           /\ Crc64(s, c) = Crc64Def(s, c)
+\* the closed form for runs of zero bytes equals the bit-serial definition (lengths 0..70, 255..257)
+ASSUME ZeroRun32 == \A n \in (0..70) \cup {255, 256, 257} : \A c \in Inits32 :
+          ZeroRun(Poly32, <<n, 0, 0>>, c) = Crc32Def([i \in 1..n |-> 0], c)
+ASSUME ZeroRun64 == \A n \in (0..70) \cup {255, 256, 257} : \A c \in Inits64 :
+          ZeroRun(Poly64, <<n, 0, 0>>, c) = Crc64Def([i \in 1..n |-> 0], c)
+\* the SHA-256 length field: 8 * n as a 64-bit big-endian number, across the 2^32-bit boundary
+ASSUME BitLen == /\ BitLenBE(3) = <<0, 0, 0, 0, 0, 0, 0, 24>>
+                 /\ BitLenBE(536870911) = <<0, 0, 0, 0, 255, 255, 255, 248>>
+                 /\ BitLenBE(536870912) = <<0, 0, 0, 1, 0, 0, 0, 0>>
+                 /\ BitLenBE(536870912 + 8193) = <<0, 0, 0, 1, 0, 1, 0, 8>>
+                 /\ BitLenBE(2147483647) = <<0, 0, 0, 3, 255, 255, 255, 248>>
 \* the polynomial is table entry 0x80 (a single 1 bit entering the register)
 ASSUME TablePoly == Table32[128] = Poly32 /\ Table64[128] = Poly64 /\ Table32[0] = <<0, 0>>
 =============================================================================
